@@ -31,7 +31,14 @@ PROPS = ["Locality", "ReadsOnly"]
 CELLS = [([1, 1], [1, 1]), ([2, 1], [1, 1]), ([1, 1], [3, 1]), ([1, 2], [2, 1])]
 RES_OK = ["tuple", "list", "ndarray_float", "tuple_npfloat"]
 RES_IGNORED = ["none", "ndarray_int", "tuple_npint", "triple", "str"]
-INT_DTYPES = ["int8", "int16", "int32", "int64", "uint8", "uint16", "uint32", "float32", "float64"]
+INT_DTYPES = ["int8", "int16", "int32", "int64", "uint8", "uint16", "uint32", "uint64", "float32", "float64"]
+LAYOUTS = ["C", "F", "T", "S", "R"]               # C, Fortran, transposed view, strided view, reversed view
+DIMS = [["y", "x"], ["lat", "lon"], ["row", "col"]]
+# offsets that put small windows at the top of the dtype (wide dtypes: still exact in float32, < 2^24)
+TOP = {"int8": 125, "uint8": 253, "int16": 32765, "uint16": 65533, "int32": 16777213, "uint32": 16777213,
+       "int64": 16777213, "uint64": 16777213, "float32": 16777213, "float64": 16777213}
+AZS = [225, 0, 90, 315, 37, 180, 270, 360, 45.5, -45]
+ALTS = [25, 45, 0, 90, 63, 30.5, 5]
 
 
 def mc_consts(H, W, vals, cx, cy, mut="none"):
@@ -58,6 +65,8 @@ def make_meta(cell, way, variant, H, W):
             xs, ys = [], []
         else:
             xs, ys = ramp(-4, 5, W, False), ramp(3, 3, H, True)
+        if (variant // 3) % 5 == 4:               # both components negative: the same cell size (squares / mean^2)
+            return {"rk": rk, "rx": [-cx[0], cx[1]], "ry": [-cy[0], cy[1]], "xs": xs, "ys": ys, "cd": 2}
         return {"rk": rk, "rx": cx, "ry": cy, "xs": xs, "ys": ys, "cd": 2}
     rk = RES_IGNORED[variant % len(RES_IGNORED)]
     dx = (variant // 5) % 2 == 1
@@ -91,8 +100,12 @@ def f_job(rows, i, combo=None, az=225, alt=25):
         combo = i % 8
     cell = CELLS[combo % 4]
     way = combo // 4
-    return {"kind": "F", "H": H, "W": W, "vals": rows, "dtype": dtype_for(rows, i),
-            "meta": make_meta(cell, way, i // 8, H, W), "az": az, "alt": alt}
+    j = {"kind": "F", "H": H, "W": W, "vals": rows, "dtype": dtype_for(rows, i),
+         "meta": make_meta(cell, way, i // 8, H, W), "az": az, "alt": alt,
+         "layout": LAYOUTS[(i // 3) % 5], "dims": DIMS[(i // 2) % 3]}
+    if i % 5 == 2 and all(v == "nan" or v >= 0 for row in rows for v in row):
+        j["off"] = TOP[j["dtype"]]               # values at the top of the dtype: differences must not wrap
+    return j
 
 
 def tile(wins, th, tw):
@@ -156,7 +169,16 @@ def cellsize_jobs():
                     xs = [0, 5][:W] if W == 2 else [0, 1, 5, 6, 12][:W]
                     ys = [9, 8, 2, 1, 0][:H]
                 jobs.append({"kind": "C", "H": H, "W": W, "vals": [[0] * W for _ in range(H)],
-                             "meta": {"rk": rk, "rx": cx, "ry": cy, "xs": xs, "ys": ys, "cd": 2}})
+                             "meta": {"rk": rk, "rx": cx, "ry": cy, "xs": xs, "ys": ys, "cd": 2},
+                             "dims": DIMS[len(jobs) % 3], "layout": LAYOUTS[len(jobs) % 5]})
+    # negative and mixed-sign `res` (rioxarray style (30, -30)): returned as given
+    for rk in RES_OK + ["scalar_int", "scalar_float"]:
+        for (cx, cy) in [([-2, 1], [-1, 1]), ([3, 1], [-3, 1]), ([-1, 2], [2, 1]), ([-5, 2], [-5, 2])]:
+            if rk == "scalar_int" and cx[1] != 1:
+                continue
+            jobs.append({"kind": "C", "H": 3, "W": 4, "vals": [[0] * 4 for _ in range(3)],
+                         "meta": {"rk": rk, "rx": cx, "ry": cy, "xs": ramp(0, 3, 4, True), "ys": ramp(2, 1, 3, False),
+                                  "cd": 2}, "dims": DIMS[len(jobs) % 3]})
     return jobs
 
 
@@ -318,11 +340,17 @@ def run(ctx):
     order += order[:(-len(order)) % 6]
     for t in range(len(order) // 6):
         rows = tile([window(i, base_n) for i in order[6 * t:6 * t + 6]], 2, 3)
-        jobs.append(f_job(rows, t, az=[225, 0, 90, 315, 37][t % 5], alt=[25, 45, 0, 90, 63][t % 5]))
+        jobs.append(f_job(rows, t, az=AZS[t % 10], alt=ALTS[t % 7]))
     if not thorough:
         for t in range(300):
             rows = tile([window(rng.randrange(4 ** 9), 4) for _ in range(6)], 2, 3)
-            jobs.append(f_job(rows, t, az=[225, 0, 90, 315, 37][t % 5], alt=[25, 45, 0, 90, 63][t % 5]))
+            jobs.append(f_job(rows, t, az=AZS[t % 10], alt=ALTS[t % 7]))
+    # 3 x N and N x 3 rasters: the border ring and ONE interior line
+    for t in range(ctx.pick(60, 400)):
+        k = rng.choice([2, 3, 4])
+        wins = [window(rng.randrange(4 ** 9), 4) for _ in range(k)]
+        rows = tile(wins, 1, k) if t % 2 == 0 else tile(wins, k, 1)
+        jobs.append(f_job(rows, t, az=AZS[(t + 3) % 10], alt=ALTS[(t + 1) % 7]))
     # non-square tilings the other way round, and small-integer rasters with negative values
     for t in range(ctx.pick(100, 600)):
         rows = tile([window(rng.randrange(4 ** 9), 4) for _ in range(6)], 3, 2)
@@ -364,7 +392,9 @@ def run(ctx):
         if nan:
             sprinkle_nan(rng, rows, rng.choice([0, 0, 0.05, 0.2]))
         return {"kind": kind, "H": H, "W": W, "vals": rows, "dtype": rng.choice(dtypes),
-                "meta": rand_meta(rng, H, W, square), "az": rng.randint(0, 360), "alt": rng.randint(0, 90)}
+                "meta": rand_meta(rng, H, W, square), "az": rng.choice([rng.randint(0, 360), 0, 360, 45.5, -45]),
+                "alt": rng.choice([rng.randint(0, 90), 0, 90, 30.5]),
+                "layout": rng.choice(LAYOUTS), "dims": rng.choice(DIMS)}
 
     jobs = [base("G", rng.choice(["float", "int"])) for _ in range(ctx.pick(200, 1500))]
     for (H, W) in [(2, 4), (4, 2), (2, 2), (3, 3), (2, 7)] * ctx.pick(2, 10):      # rasters that are all border
